@@ -348,3 +348,27 @@ def loop_sources(ex, paths):
             elif e[0] in ("iter-item", "iter-exhausted"):
                 out.add((e[1], S.fstr(e[3])[:140]))
     return out
+
+
+
+def char_tests(conds):
+    """[(tested term, char, is_equal)] for `x == 'c'`, `'c' == x`, `x != 'c'` and `match x { 'c' => .. }` (a switch on the
+    char value), with the outcome each path assumed."""
+    out = []
+    for c, o in conds:
+        if c[0] == "binop" and c[1] in ("Eq", "Ne") and isinstance(o, bool):
+            for a, b in ((c[2], c[3]), (c[3], c[2])):
+                if b[0] == "const" and isinstance(b[1], str) and re.match(r"^'.*'$", b[1]):
+                    try:
+                        ch = eval(b[1])
+                    except Exception:
+                        continue
+                    out.append((a, ch, o if c[1] == "Eq" else (not o)))
+        elif c[0] not in ("binop", "app", "discr", "isvar", "not", "cmp"):
+            if isinstance(o, int) and not isinstance(o, bool) and 0 <= o < 0x110000:
+                out.append((c, chr(o), True))
+            elif isinstance(o, tuple) and o and o[0] == "otherwise":
+                for v in o[1]:
+                    if isinstance(v, int) and 0 <= v < 0x110000:
+                        out.append((c, chr(v), False))
+    return out
